@@ -328,3 +328,116 @@ Proof.
 Qed.
 
 End Arms.
+
+(* ---------- top level ---------- *)
+Lemma scheme_type_file s : scheme_type_of s = STFile -> s = s_file.
+Proof.
+  unfold scheme_type_of.
+  destruct (list_eqb s s_http || list_eqb s s_https || list_eqb s s_ws || list_eqb s s_wss || list_eqb s s_ftp); [discriminate|].
+  destruct (list_eqb s s_file) eqn:E; [|discriminate]. intros _. apply list_eqb_spec. exact E.
+Qed.
+
+Section Top.
+Variable dbg : bool.
+Variable hp hpo : list N -> result host.
+Variable hd : host -> list N.
+Variable ovr : option (list N -> list N).
+Hypothesis HW : HostWf hp hpo hd.
+
+Definition HostRes (base : option url) (u : url) : Prop :=
+  hosti u = HI_None \/ Fresh hp hpo hd (spb u) u
+  \/ exists b, base = Some b /\ hosti b <> HI_None /\ ht u = ht b /\ spb u = spb b.
+
+Lemma copy_res b u : wf_b b = true -> host_text_ok b -> hosti u = hosti b /\ CopyB b u -> HostRes (Some b) u.
+Proof.
+  intros W HT [E C]. destruct (hosti b) eqn:Eh; [left; exact E | right; right ..];
+    (assert (hosti b <> HI_None) as Hn by (rewrite Eh; discriminate));
+    destruct (copyb_ht b u W HT Hn C) as [H1 H2];
+    (exists b; split; [reflexivity | split; [exact Hn | split; [exact H1 | unfold spb; rewrite H2; reflexivity]]]).
+Qed.
+
+Lemma relative_res st b l u : wf_b b = true -> host_text_ok b -> st_is_file st = false ->
+  nnth (ser b) (scheme_end b + 1) = Some 47 -> st_is_special st = spb b ->
+  parse_relative dbg hp hpo hd ovr CUrlParser st b l = POk u -> HostRes (Some b) u.
+Proof.
+  intros W HT Hnf Hs Est H.
+  destruct (parse_relative_bk dbg hp hpo hd ovr st b l u W Hs Hnf H) as (K1 & K2 & _).
+  assert (spb u = spb b) as Esp by (unfold spb, b_scheme; rewrite K1, K2; reflexivity).
+  destruct (parse_relative_host dbg hp hpo hd ovr HW st b l u W HT Hnf Hs H) as [A|[A|[Hn C]]].
+  - left. exact A.
+  - right. left. rewrite Esp, <- Est. exact A.
+  - right. right. destruct (copyb_ht b u W HT Hn C) as [H1 _].
+    exists b. split; [reflexivity|]. split; [exact Hn|]. split; [exact H1 | exact Esp].
+Qed.
+
+Lemma file_res (base : option url) base_file l st u :
+  match base with Some b => wf_b b = true /\ host_text_ok b | None => True end ->
+  (base_file = None \/ exists b, base = Some b /\ base_file = Some b /\ b_scheme b = s_file) ->
+  parse_file dbg hp hd ovr CUrlParser st base_file l = POk u -> HostRes base u.
+Proof.
+  intros Hb Hbf H.
+  assert (match base_file with Some b => wf_b b = true /\ host_text_ok b /\ b_scheme b = s_file | None => True end) as Hbf2.
+  { destruct Hbf as [->|(b & E1 & -> & E3)]; [exact I|]. rewrite E1 in Hb. destruct Hb as [W HT]. split; [exact W|]. split; [exact HT | exact E3]. }
+  destruct (parse_file_host_origin dbg hp hpo hd ovr st base_file l u Hbf2 H) as [A|(Es & [A|(b & Eb & Hn & Eh)])].
+  - left. exact A.
+  - right. left. assert (spb u = true) as -> by (unfold spb; rewrite Es; reflexivity). exact A.
+  - right. right. destruct Hbf as [E0|(b0 & E1 & E2 & E3)]; [rewrite E0 in Eb; discriminate|].
+    rewrite E2 in Eb. inversion Eb; subst b0. exists b. split; [exact E1|]. split; [exact Hn|]. split; [exact Eh|].
+    unfold spb. rewrite Es, E3. reflexivity.
+Qed.
+
+Theorem parse_with_scheme_host base sch l u :
+  match base with Some b => wf_b b = true /\ host_text_ok b /\ bk b | None => True end ->
+  parse_with_scheme dbg hp hpo hd ovr base sch l = POk u -> HostRes base u.
+Proof.
+  intros Hb. unfold parse_with_scheme. intros H. pb H se Hse. apply to_u32_eq in Hse. subst se. cbv zeta in H.
+  assert (nlen (sch ++ [58]) = nlen sch + 1) as L0 by (rewrite nlen_app; reflexivity).
+  destruct (scheme_type_of sch) eqn:Est.
+  - eapply (file_res base); [destruct base as [b|]; [tauto | exact I] | | exact H].
+    destruct base as [b|]; [|left; reflexivity].
+    destruct (list_eqb (b_scheme b) s_file) eqn:Eb; [|left; reflexivity].
+    right. exists b. split; [reflexivity|]. split; [reflexivity|]. apply list_eqb_spec. exact Eb.
+  - destruct (inp_count_matching is_slash_or_bslash l) as [slashes remaining].
+    assert (forall X, after_double_slash dbg hp hpo hd ovr CUrlParser STSpecialNotFile (nlen sch) (sch ++ [58]) X = POk u ->
+              HostRes base u) as Hads.
+    { intros X HX. destruct (ads_bk dbg hp hpo hd ovr _ _ _ X u L0 HX) as (A & B & _).
+      assert (spb u = true) as Esp.
+      { unfold spb, b_scheme. rewrite A, B, nfirstn_app_exact, Est. reflexivity. }
+      destruct (ads_host dbg hp hpo hd ovr HW _ _ _ _ X u L0 HX) as [C|C]; [left; exact C|].
+      right. left. rewrite Esp. exact C. }
+    destruct base as [b|]; [|exact (Hads _ H)].
+    destruct ((slashes <? 2) && list_eqb (b_scheme b) sch) eqn:Ec; [|exact (Hads _ H)].
+    apply andb_true_iff in Ec. destruct Ec as [_ Ec]. apply list_eqb_spec in Ec.
+    pb H x Hx. destruct Hb as (W & HT & K).
+    assert (spb b = true) as Esb by (unfold spb; rewrite Ec, Est; reflexivity).
+    apply (relative_res STSpecialNotFile b l u W HT eq_refl (K Esb)); [rewrite Esb; reflexivity | exact H].
+  - destruct (pns_bk dbg hp hpo hd ovr _ _ _ _ u L0 H) as (K1 & K2).
+    assert (spb u = false) as Esp.
+    { unfold spb, b_scheme. rewrite K1, K2, nfirstn_app_exact, Est. reflexivity. }
+    unfold parse_non_special in H. destruct (inp_split_prefix_str s_ss l) as [rm|].
+    + destruct (ads_host dbg hp hpo hd ovr HW _ _ _ _ rm u L0 H) as [C|C]; [left; exact C|].
+      right. left. rewrite Esp. exact C.
+    + left. pb H ps Hps. pb H a Ha. destruct a as [s1 rem]. apply wqf_fields in H. exact (proj2 (proj2 H)).
+Qed.
+
+Theorem parse_url_host base input u :
+  match base with Some b => wf_b b = true /\ host_text_ok b /\ bk b | None => True end ->
+  parse_url dbg hp hpo hd ovr base input = POk u -> HostRes base u.
+Proof.
+  intros Hb. unfold parse_url. cbv zeta.
+  destruct (parse_scheme CUrlParser (input_new_trim_c0 input)) as [[sch rem]|].
+  - apply parse_with_scheme_host. exact Hb.
+  - destruct base as [b|]; [|discriminate]. destruct Hb as (W & HT & K).
+    destruct (inp_starts_with_char 35 (input_new_trim_c0 input)).
+    { intros H. exact (copy_res b u W HT (fragment_only_copy b _ u W H)). }
+    rewrite (cannot_be_a_base_eval b W).
+    destruct (byte_eqb (ser b) (scheme_end b + 1) 47) eqn:Eb; cbn [negb]; [|discriminate].
+    apply byte_eqb_nnth in Eb.
+    destruct (st_is_file (scheme_type_of (b_scheme b))) eqn:Ef.
+    + intros H. eapply (file_res (Some b) (Some b)); [exact (conj W HT) | | exact H].
+      right. exists b. split; [reflexivity|]. split; [reflexivity|]. apply scheme_type_file.
+      destruct (scheme_type_of (b_scheme b)); try discriminate Ef; reflexivity.
+    + intros H. eapply (relative_res _ b); [exact W | exact HT | exact Ef | exact Eb | reflexivity | exact H].
+Qed.
+
+End Top.
